@@ -6,6 +6,13 @@ Cases (JSON):
                                   "let": name|null, "partner": name|null}}...]}
      op: ["def", name, [dynamic, redef, private], value] | ["in-ns", ns] | ["require", ns, alias|null]
          | ["refer", ns, [names]] | ["alter", ns, name, value]
+         | ["push", ns, name, value]   enter a thread binding of Var ns/name (everything up to the matching
+                                       ["pop"] runs inside its dynamic extent)
+         | ["pop"]                     leave the innermost binding entered by a successful push
+     optional "bind": "form" -- a push is executed as the real macro form
+         (basilisp.core/binding [ns/name value] (<callback>)), the callback running the following steps up to
+         the pop that leaves it -- or "rt" (default): runtime.push_thread_bindings / pop_thread_bindings on the
+         interned Var object.
      rf: the reads requested after the step, expanded by expand() here and by Corr.mk_reads in Coq:
          [rns, loc|null, q|null, name] = the symbol name (q = null) or q/name, optionally inside
          (let* [x v] ...), compiled in namespace rns.
@@ -56,11 +63,13 @@ ASSUMPTIONS = ["names and aliases do not collide with the bootstrap globals of a
                "basilisp, ...) nor with the default imports; no ns-unmap / ns-unalias / :rename / import",
                "reads are top-level forms, compiled and executed immediately (compile time = run time)",
                "namespaces are in-memory (Namespace.require falls back to the namespace cache)",
-               "thread bindings are C11's subject; locals are let* locals of the read form (closures: C01)"]
+               "thread bindings: one thread, one Var per binding frame, no set! (conveyance to other threads and "
+               "frames of several Vars are C11's subject); locals are let* locals of the read form (closures: C01)"]
 FINDINGS = {
     "F-10a": lambda c, o, tag: bool(tag & 1),
     "F-10b": lambda c, o, tag: bool(tag & 2),
     "F-10c": lambda c, o, tag: bool(tag & 4),
+    "F-10e": lambda c, o, tag: bool(tag & 8),
 }
 EXHAUSTIVE = {"quick": False, "thorough": False}
 
@@ -100,7 +109,7 @@ def expand(rf):
 NO_READS = {"readers": [], "names": [], "let": None, "partner": None}
 
 
-def with_reads(nss, ops, modes=M2, wide=False, every=False, maxnames=4, files=None):
+def with_reads(nss, ops, modes=M2, wide=False, every=False, maxnames=4, files=None, bind=None):
     """attach read requests: after the last step (after every step when `every`) read the
     `maxnames` most recently defined names from the current namespace (`wide` or last step:
     from every namespace visited so far)"""
@@ -140,15 +149,17 @@ def with_reads(nss, ops, modes=M2, wide=False, every=False, maxnames=4, files=No
     case = {"k": "hist", "nss": list(nss), "modes": modes, "steps": steps}
     if files:
         case["files"] = files
+    if bind:
+        case["bind"] = bind
     return case
 
 
 def number(ops):
-    """give every def/alter its own value"""
+    """give every def/alter/push its own value"""
     out = []
     for i, op in enumerate(ops):
         op = list(op)
-        if op[0] in ("def", "alter"):
+        if op[0] in ("def", "alter", "push"):
             op[-1] = 101 + i
         out.append(op)
     return out
@@ -178,6 +189,39 @@ ALPHA_DISK = [["require", X, "fb"], ["require", Y, "fd"], ["refer", X, ["v"]], [
               ["def", "v", PLAIN, 0], ["alter", X, "v", 0]]
 
 
+# ---- thread bindings of dynamic Vars ----
+DV, DW = "*v*", "*w*"
+DYN, DYNREDEF = [1, 0, 0], [1, 1, 0]
+# one dynamic Var: redefinition keeping / dropping ^:dynamic, enter, leave, root mutation
+ALPHA_BIND = [["def", DV, DYN, 0], ["def", DV, PLAIN, 0], ["push", U, DV, 0], ["pop"], ["alter", U, DV, 0]]
+BIND_PREFIX = [["def", DV, DYN, 0]]
+
+
+def bind_history(rng, n):
+    """nested bindings of two dynamic Vars and attempts on a plain / a missing one, from two namespaces"""
+    ops = [["def", DV, DYN, 0], ["def", DW, rng.choice([DYN, DYNREDEF]), 0], ["def", "v", PLAIN, 0]]
+    for _ in range(n):
+        r = rng.random()
+        if r < 0.30:
+            ops.append(["push", U, rng.choice([DV, DV, DV, DW, DW, "v", "nope"]), 0])
+        elif r < 0.50:
+            ops.append(["pop"])
+        elif r < 0.72:
+            name = rng.choice([DV, DV, DW, "v"])
+            if name == "v":
+                fl = PLAIN
+            else:                       # mostly keep the marking; sometimes drop / restore it (F-10e)
+                fl = rng.choice([DYN] * 6 + [DYNREDEF, PLAIN])
+            ops.append(["def", name, fl, 0])
+        elif r < 0.84:
+            ops.append(["alter", U, rng.choice([DV, DW, "v"]), 0])
+        elif r < 0.94:
+            ops.append(["in-ns", rng.choice([U, X])])
+        else:
+            ops.append(["require", U, "uu"])
+    return number(ops)
+
+
 def random_history(rng, n):
     ops = []
     nss = list(NSS)
@@ -192,9 +236,13 @@ def random_history(rng, n):
             m = rng.choice(nss + ["@.missing"] if rng.random() < 0.05 else nss)
             a = rng.choice([ALIAS.get(m, "mm"), ALIAS.get(m, "mm"), None, "fb", Y])
             ops.append(["require", m, a])
-        elif r < 0.88:
+        elif r < 0.86:
             k = rng.choice([0, 1, 1, 2, 3])
             ops.append(["refer", rng.choice(nss), rng.sample(POOL, k)])
+        elif r < 0.91:
+            ops.append(["push", rng.choice(nss), rng.choice(POOL), 0])
+        elif r < 0.94:
+            ops.append(["pop"])
         else:
             ops.append(["alter", rng.choice(nss), rng.choice(POOL), 0])
     return number(ops)
@@ -233,6 +281,13 @@ WITNESSES = {
     "F-10b-disk": [with_reads([U], [["require", X, "fb"], ["require", Y, "fd"]], every=True, files=FILES)],
     "F-10c": [with_reads([U, X], number([["in-ns", X], ["def", "v", PLAIN, 0], ["in-ns", U], ["refer", X, ["v"]],
                                       ["in-ns", X], ["def", "v", [0, 0, 1], 0], ["in-ns", U]]))],
+    # (def ^:dynamic *v* 1) (binding [*v* 5] (def *v* 2) (def ^:dynamic *v* 3) *v*) -> 3, and leaving raises
+    "F-10e": [with_reads([U], number([["def", DV, DYN, 0], ["push", U, DV, 0], ["def", DV, PLAIN, 0],
+                                      ["def", DV, DYN, 0], ["pop"]]), every=True, bind=b) for b in ("rt", "form")],
+    # the unchanged behaviour next to it: redefinition with ^:dynamic inside nested bindings
+    "bind": [with_reads([U], number([["def", DV, DYN, 0], ["push", U, DV, 0], ["def", DV, DYN, 0], ["push", U, DV, 0],
+                                     ["def", DV, DYN, 0], ["alter", U, DV, 0], ["pop"], ["pop"], ["pop"]]),
+                        every=True, bind=b) for b in ("rt", "form")],
 }
 
 
@@ -268,6 +323,19 @@ def cases(tier, rng):
         yield with_reads([X, U, Y, Z], ops, modes())
     for ops in sequences(ALPHA_PRIV, 3 if quick else 4):
         yield with_reads([U, X], ops, modes())
+    # thread bindings: every history of length <= 3 (thorough: 5) after (def ^:dynamic *v* ..), a sample of
+    # the next length, each once through the runtime functions and once through real `binding` forms
+    kb = 0
+    bseqs = list(sequences(ALPHA_BIND, 3 if quick else 5))
+    bseqs += sampled(sequences(ALPHA_BIND, 4, 4), 200) if quick else sampled(sequences(ALPHA_BIND, 6, 6), 3000)
+    for ops in bseqs:
+        kb += 1
+        yield with_reads([U], number(BIND_PREFIX + ops), modes(), every=True, bind="form" if kb % 2 else "rt")
+    for _ in range(160 if quick else 4000):
+        kb += 1
+        n = rng.randint(4, 12) if quick or rng.random() < 0.7 else rng.randint(13, 30)
+        yield with_reads([U, X], bind_history(rng, n), modes(), wide=rng.random() < 0.3, every=True,
+                         bind="form" if kb % 2 else "rt")
     if not quick:
         for ops in sampled(sequences(ALPHA_NS5, 6, 6), 3000):
             yield with_reads([X, U, Y, Z], ops, modes())
@@ -320,16 +388,20 @@ def _flags(fl):
 
 def _step(op, nm):
     if op[0] == "def":
-        return f"(SDef {nm(op[1])} {_flags(op[2])} {G.n(op[3])})"
+        return f"(B (SDef {nm(op[1])} {_flags(op[2])} {G.n(op[3])}))"
     if op[0] == "in-ns":
-        return f"(SInNs {nm(op[1])})"
+        return f"(B (SInNs {nm(op[1])}))"
     if op[0] == "require":
         a = "None" if op[2] is None else f"(Some {nm(op[2])})"
-        return f"(SRequire {nm(op[1])} {a})"
+        return f"(B (SRequire {nm(op[1])} {a}))"
     if op[0] == "refer":
-        return f"(SRefer {nm(op[1])} {G.lst([nm(x) for x in op[2]], 'str')})"
+        return f"(B (SRefer {nm(op[1])} {G.lst([nm(x) for x in op[2]], 'str')}))"
     if op[0] == "alter":
-        return f"(SAlter {nm(op[1])} {nm(op[2])} {G.n(op[3])})"
+        return f"(B (SAlter {nm(op[1])} {nm(op[2])} {G.n(op[3])}))"
+    if op[0] == "push":
+        return f"(BPush {nm(op[1])} {nm(op[2])} {G.n(op[3])})"
+    if op[0] == "pop":
+        return "BPop"
     raise ValueError(op)
 
 
@@ -375,7 +447,7 @@ def _model_steps(c):
 
 def _hist(c, nm):
     modes = G.lst(["Indirect" if m[0] else "Direct" for m in c["modes"]], "mode")
-    steps = G.lst([f"({_step(op, nm)}, {_rf(rf, nm)})" for op, rf, _ in _model_steps(c)], "(step * list readreq)")
+    steps = G.lst([f"({_step(op, nm)}, {_rf(rf, nm)})" for op, rf, _ in _model_steps(c)], "(bstep * list readreq)")
     return f"(CHist {G.lst([nm(n) for n in c['nss']], 'str')} {modes} {steps})"
 
 
@@ -440,9 +512,12 @@ def shrink(c):
         return
     ops = [s["op"] for s in c["steps"]]
     for i in range(len(ops)):
-        yield with_reads(c["nss"], ops[:i] + ops[i + 1:], c["modes"], every=True, files=c.get("files"))
+        yield with_reads(c["nss"], ops[:i] + ops[i + 1:], c["modes"], every=True, files=c.get("files"),
+                         bind=c.get("bind"))
     if len(c["modes"]) > 2:
-        yield with_reads(c["nss"], ops, M2, every=True, files=c.get("files"))
+        yield with_reads(c["nss"], ops, M2, every=True, files=c.get("files"), bind=c.get("bind"))
+    if c.get("bind") == "form":
+        yield with_reads(c["nss"], ops, c["modes"], every=True, files=c.get("files"), bind="rt")
 
 
 def extra_evidence(cases_, outs):
